@@ -17,7 +17,7 @@ from vmon.libutil import load_definition, monitored
 
 LEVEL = "exploration"
 SHARDS = {"quick": 16, "thorough": 16}
-MUST = ["graph.walks", "valid.base_container_also_nested", "corrupt.loaded_from_same_path", "graph.entry_kind_checks", "valid.parameter_and_container_share_a_name", "kind.repoint-to-other-kind", "graph.identity_checks", "graph.inheritor_checks", "corrupt.reject-expected", "corrupt.accept-expected",
+MUST = ["graph.walks", "valid.unconditional_inheritors", "kind.rename-qualified", "valid.base_container_also_nested", "corrupt.loaded_from_same_path", "graph.entry_kind_checks", "valid.parameter_and_container_share_a_name", "kind.repoint-to-other-kind", "graph.identity_checks", "graph.inheritor_checks", "corrupt.reject-expected", "corrupt.accept-expected",
         "kind.rename-typeref", "kind.rename-paramref", "kind.rename-containerref", "kind.rename-baseref", "kind.dup-type", "kind.dup-param",
         "kind.dup-container-changed", "kind.delete-referenced", "kind.delete-unreferenced", "kind.base-cycle", "kind.nesting-cycle",
         "kind.self-base", "kind.self-nesting", "kind.repoint"]
@@ -156,6 +156,10 @@ def corruptions(root, doc, rng, limit):
         r, pts, ps, cs = fresh()
         ps.children[i].attrs["parameterTypeRef"] = "NoSuch_Type"
         out.append(("rename-typeref", "Parameter", p.attrs["name"] in used_params, "reject", r))
+        if p.attrs["name"] in used_params:
+            r, pts, ps, cs = fresh()
+            ps.children[i].attrs["parameterTypeRef"] = "Types/" + p.attrs["parameterTypeRef"]
+            out.append(("rename-qualified", "Parameter@parameterTypeRef", True, "reject", r))
         r, pts, ps, cs = fresh()
         other = rng.choice([t.attrs["name"] for t in pts.children])
         ps.children[i].attrs["parameterTypeRef"] = other
@@ -168,6 +172,11 @@ def corruptions(root, doc, rng, limit):
             if e.tag == "ParameterRefEntry":
                 tgt.attrs["parameterRef"] = "NoSuchParameter"
                 out.append(("rename-paramref", "ParameterRefEntry", True, "reject", r))
+                # an undefined name that merely ENDS in a defined one (a path into some other space system)
+                r, pts, ps, cs = fresh()
+                tgt = find_all(cs.children[ci], "EntryList")[0].children[ei]
+                tgt.attrs["parameterRef"] = ("/Elsewhere/", "Spare/", "../")[ei % 3] + e.attrs["parameterRef"]
+                out.append(("rename-qualified", "ParameterRefEntry", True, "reject", r))
                 r, pts, ps, cs = fresh()
                 tgt = find_all(cs.children[ci], "EntryList")[0].children[ei]
                 tgt.attrs["parameterRef"] = rng.choice([p.attrs["name"] for p in ps.children])
@@ -192,6 +201,10 @@ def corruptions(root, doc, rng, limit):
             r, pts, ps, cs = fresh()
             find_all(cs.children[ci], "BaseContainer")[0].attrs["containerRef"] = "NoSuchBase"
             out.append(("rename-baseref", "BaseContainer", True, "reject", r))
+            r, pts, ps, cs = fresh()
+            bc_ = find_all(cs.children[ci], "BaseContainer")[0]
+            bc_.attrs["containerRef"] = "/Elsewhere/" + bc_.attrs["containerRef"]
+            out.append(("rename-qualified", "BaseContainer", True, "reject", r))
             r, pts, ps, cs = fresh()
             only_params = [p.attrs["name"] for p in ps.children if p.attrs["name"] not in {c_.attrs["name"] for c_ in cs.children}]
             find_all(cs.children[ci], "BaseContainer")[0].attrs["containerRef"] = only_params[ci % len(only_params)]
@@ -338,6 +351,14 @@ def run(ctx):
             doc = ir.Doc(doc.types, doc.params, (ir.Container("ZZ_Archive", (("c", doc.root),) + tuple(("c", k_) for k_ in kids)),) + doc.containers,
                          doc.root, doc.system_name, doc.date)
             ctx.count("valid.base_container_also_nested")
+        if i % 3 == 2:
+            # one or two containers inherit UNCONDITIONALLY (BaseContainer without RestrictionCriteria): they are inheritors all the same
+            import dataclasses
+            kids = [c for c in doc.containers if c.base is not None]
+            chosen = {c.name for c in kids[i % 2::2][:2]}
+            if chosen:
+                doc = dataclasses.replace(doc, containers=tuple(dataclasses.replace(c, criteria=None) if c.name in chosen else c for c in doc.containers))
+                ctx.count("valid.unconditional_inheritors")
         root = render.doc_el(doc, render.Opts(explicit=None, rng=rng))
         style = styles[i % 3]
         pfx = style[1] if style[0] == "prefix" else None
